@@ -94,7 +94,10 @@ def runwt(ids: list[str]) -> None:
             if rc != 0:
                 entry["error"] = "patch does not apply: " + out[-200:]
             else:
-                rc, out = sh(f"cd {VERIF} && VERIF_REPO={wt} VERIF_EVIDENCE_DIR=/tmp/seed/evidence_wt timeout 900 ./check {p} --tier quick --no-lean", timeout=1000)
+                try:
+                    rc, out = sh(f"cd {VERIF} && VERIF_REPO={wt} VERIF_EVIDENCE_DIR=/tmp/seed/evidence_wt timeout 900 ./check {p} --tier quick --no-lean", timeout=1000)
+                except subprocess.TimeoutExpired:
+                    rc, out = 2, "TIMEOUT (the check did not finish)"
                 entry["line"] = next((l for l in out.splitlines() if l.startswith(("VIOLATION", "OK ", "INFRASTRUCTURE"))), out[-200:])
         finally:
             sh(f"git -C {wt} checkout -- .")
